@@ -376,10 +376,12 @@ func TestVerifC19Syncer(t *testing.T) {
 	m := bed.vfAddSecondary(t, "vf-sec-sync", true)
 	raw := bed.raw
 
-	// write with retry (all writes are idempotent in content; retries only happen while the
-	// server is not reachable yet, i.e. when nothing was applied)
+	// Writes are retried only right after a server restart, while the writer's client is still
+	// reconnecting (nothing can have been applied then, and all writes are idempotent in content);
+	// any other write error makes the case inconclusive, because the store sequence would no
+	// longer be known exactly.
 	broken := new(string)
-	doWrite := func(rt *rapid.T, base string, st vfStep) {
+	doWrite := func(rt *rapid.T, base string, st vfStep, afterRestart bool) {
 		deadline := time.Now().Add(90 * time.Second)
 		for {
 			ctx, cancel := vfRawCtx(15 * time.Second)
@@ -406,6 +408,9 @@ func TestVerifC19Syncer(t *testing.T) {
 			cancel()
 			if err == nil {
 				return
+			}
+			if !afterRestart {
+				rt.Fatalf("VF-INCONCLUSIVE write %s failed: %v", st, err)
 			}
 			if time.Now().After(deadline) {
 				*broken = fmt.Sprintf("write %s keeps failing: %v", st, err)
@@ -459,13 +464,15 @@ func TestVerifC19Syncer(t *testing.T) {
 		writesAfterSync, writesBeforeFault, writesAfterFault := 0, 0, 0
 		watchedChangesInCut := 0
 		sawFault, inCut := false, false
+		justRestarted := false
 		var lastRev int64
 
 		for _, st := range h.Steps {
 			switch st.Op {
 			case "write":
 				atomic.AddInt64(&started, 1)
-				doWrite(rt, base, st)
+				doWrite(rt, base, st, justRestarted)
+				justRestarted = false
 				atomic.AddInt64(&acked, 1)
 				if syncer != nil {
 					writesAfterSync++
@@ -540,6 +547,7 @@ func TestVerifC19Syncer(t *testing.T) {
 					rt.Fatalf("VF-INCONCLUSIVE etcd server did not restart: %v", err)
 				}
 				serverUp = true
+				justRestarted = true
 			case "cut":
 				bed.relay.Cut()
 				healed = false
